@@ -230,7 +230,8 @@ class Normalize(Command):
     output = params.DataParameter()
 
     def execute(self, **kwargs):
-        arr = kwargs["InFieldName"].result
+        # Work in floating point: the differences below would wrap around for unsigned data (NetCDF "Positive Integer")
+        arr = kwargs["InFieldName"].result.astype(float)
         start = kwargs.get("StartVal", 0)
         end = kwargs.get("EndVal", 1)
 
